@@ -166,6 +166,8 @@ def _len(I, a, k):
     from .interp import SIter
     if isinstance(x, SIter):
         return wrap(A.T(x.length))
+    if isinstance(x, (list, tuple, dict, str, set)):
+        return len(x)
     return NotImplemented
 
 
@@ -218,7 +220,7 @@ def _isinstance(I, a, k):
             if x.cls is None:
                 raise Unsupported("isinstance on untyped symbolic object")
             return issubclass(x.cls, t)
-        return NotImplemented
+        return isinstance(x, t)
     ts = t if isinstance(t, tuple) else (t,)
     import numbers
     if isinstance(x, SArr):
